@@ -28,9 +28,10 @@ Record ex := mkex {
   table : list pst;       (* executor._processes, the same dict as manager.processes *)
   shut : bool; killf : bool;
   cqc : bool; rqc : bool; wkc : bool;     (* close() was called on call queue / result queue / wake-up pipe *)
-  stuck : bool            (* a join was asked of a process nobody told to stop *)
+  stuck : bool;           (* a join was asked of a process nobody told to stop *)
+  rdc : bool              (* the parent's own handle of the call queue's read end has been closed (kill_workers, generated fact) *)
 }.
-Definition fresh : ex := mkex true true TNone FNone [] false false false false false false.
+Definition fresh : ex := mkex true true TNone FNone [] false false false false false false false.
 
 Record world := mkw { cur : ex; stale : list pst }.
 (* stale: Process objects no executor owns any more but that are still in multiprocessing's child table *)
@@ -50,9 +51,9 @@ Definition kill_leaves_stale (p : pst) : bool :=
   then (is_reaped p && kill_tree_psutil_returns_without_join_when_gone) || negb kill_tree_psutil_joins_otherwise
   else negb kill_tree_nopsutil_always_joins.
 
-Definition set_table (e : ex) t := mkex (user e) (refs e) (mgr e) (feeder e) t (shut e) (killf e) (cqc e) (rqc e) (wkc e) (stuck e).
-Definition set_feeder (e : ex) f := mkex (user e) (refs e) (mgr e) f (table e) (shut e) (killf e) (cqc e) (rqc e) (wkc e) (stuck e).
-Definition set_mgr (e : ex) m := mkex (user e) (refs e) m (feeder e) (table e) (shut e) (killf e) (cqc e) (rqc e) (wkc e) (stuck e).
+Definition set_table (e : ex) t := mkex (user e) (refs e) (mgr e) (feeder e) t (shut e) (killf e) (cqc e) (rqc e) (wkc e) (stuck e) (rdc e).
+Definition set_feeder (e : ex) f := mkex (user e) (refs e) (mgr e) f (table e) (shut e) (killf e) (cqc e) (rqc e) (wkc e) (stuck e) (rdc e).
+Definition set_mgr (e : ex) m := mkex (user e) (refs e) m (feeder e) (table e) (shut e) (killf e) (cqc e) (rqc e) (wkc e) (stuck e) (rdc e).
 
 Definition prim (o : rop) (w : world) : world :=
   let e := cur w in
@@ -61,22 +62,24 @@ Definition prim (o : rop) (w : world) : world :=
       mkw (set_table e (map (fun p => if is_alive p then Zombie else p) (table e))) (stale w)
   | QClose CallQ =>
       mkw (mkex (user e) (refs e) (mgr e) (match feeder e with FRun => FStop | f => f end) (table e) (shut e) (killf e)
-                true (rqc e) (wkc e) (stuck e)) (stale w)
+                true (rqc e) (wkc e) (stuck e) (rdc e)) (stale w)
   | QClose ResultQ =>
-      mkw (mkex (user e) (refs e) (mgr e) (feeder e) (table e) (shut e) (killf e) (cqc e) true (wkc e) (stuck e)) (stale w)
+      mkw (mkex (user e) (refs e) (mgr e) (feeder e) (table e) (shut e) (killf e) (cqc e) true (wkc e) (stuck e) (rdc e)) (stale w)
   | QJoinThread CallQ =>
       if feeder_not_joined_by_creator then w
       else mkw (set_feeder e (match feeder e with FStop => FEnd | f => f end)) (stale w)
   | QJoinThread ResultQ => w
   | WakeupClose =>
-      mkw (mkex (user e) (refs e) (mgr e) (feeder e) (table e) (shut e) (killf e) (cqc e) (rqc e) true (stuck e)) (stale w)
+      mkw (mkex (user e) (refs e) (mgr e) (feeder e) (table e) (shut e) (killf e) (cqc e) (rqc e) true (stuck e) (rdc e)) (stale w)
   | JoinAllProcesses =>
       mkw (mkex (user e) (refs e) (mgr e) (feeder e) [] (shut e) (killf e) (cqc e) (rqc e) (wkc e)
-                (stuck e || existsb is_alive (table e))) (stale w)
+                (stuck e || existsb is_alive (table e)) (rdc e)) (stale w)
   | KillWorkers =>
-      mkw (set_table e []) (stale w ++ map (fun _ => Reaped) (filter kill_leaves_stale (table e)))
+      mkw (mkex (user e) (refs e) (mgr e) (feeder e) [] (shut e) (killf e) (cqc e) (rqc e) (wkc e) (stuck e)
+                (rdc e || kill_workers_closes_the_call_queue_reader))
+          (stale w ++ map (fun _ => Reaped) (filter kill_leaves_stale (table e)))
   | FlagShutdown =>
-      mkw (mkex (user e) (refs e) (mgr e) (feeder e) (table e) true (killf e) (cqc e) (rqc e) (wkc e) (stuck e)) (stale w)
+      mkw (mkex (user e) (refs e) (mgr e) (feeder e) (table e) true (killf e) (cqc e) (rqc e) (wkc e) (stuck e) (rdc e)) (stale w)
   | _ => w
   end.
 
@@ -137,7 +140,7 @@ Definition step (psutil : bool) (w : world) (v : ev) : world :=
   | Start n =>
       match mgr e with
       | TNone => if shut e || negb (user e) then w else
-                   mkw (mkex (user e) (refs e) TRun (feeder e) (repeat Alive n) (shut e) (killf e) (cqc e) (rqc e) (wkc e) (stuck e))
+                   mkw (mkex (user e) (refs e) TRun (feeder e) (repeat Alive n) (shut e) (killf e) (cqc e) (rqc e) (wkc e) (stuck e) (rdc e))
                        (match n with 0 => stale w | _ => [] end)
       | _ => w end
   | Put => if mgr_run (mgr e) && negb (cqc e) && match feeder e with FNone => true | _ => false end
@@ -153,11 +156,11 @@ Definition step (psutil : bool) (w : world) (v : ev) : world :=
                    else w
   | Poll => mkw (set_table e (map (fun p => match p with Zombie => Reaped | p => p end) (table e))) (stale w)
   | ShutdownCall kill =>
-      if user e then mkw (mkex true (refs e) (mgr e) (feeder e) (table e) true (killf e || kill) (cqc e) (rqc e) (wkc e) (stuck e)) (stale w)
+      if user e then mkw (mkex true (refs e) (mgr e) (feeder e) (table e) true (killf e || kill) (cqc e) (rqc e) (wkc e) (stuck e) (rdc e)) (stale w)
       else w
   | ShutdownReturn wait =>
       if user e && shut e && negb (wait && shutdown_joins_manager_when_wait && mgr_run (mgr e))
-      then mkw (mkex true (refs e && negb (drops wait (mgr e))) (mgr e) (feeder e) (table e) true (killf e) (cqc e) (rqc e) (wkc e) (stuck e))
+      then mkw (mkex true (refs e && negb (drops wait (mgr e))) (mgr e) (feeder e) (table e) true (killf e) (cqc e) (rqc e) (wkc e) (stuck e) (rdc e))
                (stale w)
       else w
   | ManagerExitBroken =>
@@ -173,7 +176,7 @@ Definition step (psutil : bool) (w : world) (v : ev) : world :=
         mkw (set_mgr (cur w2) TEnd) (stale w2)
       else w
   | FeederEnds => match feeder e with FStop => mkw (set_feeder e FEnd) (stale w) | _ => w end
-  | Drop => mkw (mkex false (refs e) (mgr e) (feeder e) (table e) (shut e) (killf e) (cqc e) (rqc e) (wkc e) (stuck e)) (stale w)
+  | Drop => mkw (mkex false (refs e) (mgr e) (feeder e) (table e) (shut e) (killf e) (cqc e) (rqc e) (wkc e) (stuck e) (rdc e)) (stale w)
   | NewExecutor => if done e then mkw fresh (stale w ++ table e) else w
   end.
 
@@ -190,7 +193,7 @@ Definition ledger (w : world) : counts :=
   let procs := table e ++ stale w in
   (* call queue: close() only tells the feeder to stop; the feeder closes the write end when it stops; the read end goes with
      the queue object.  result queue (SimpleQueue) and wake-up pipe: close() closes both ends. *)
-  mkc (b2n cq + b2n (cq && negb (cqc e && match feeder e with FEnd => true | _ => false end))
+  mkc (b2n (cq && negb (rdc e)) + b2n (cq && negb (cqc e && match feeder e with FEnd => true | _ => false end))
        + 2 * b2n (rq && negb (rqc e)) + 2 * b2n (rq && negb (wkc e))
        + length procs)
       (b2n (mgr_run (mgr e)) + b2n (feeder_live (feeder e)))
